@@ -22,7 +22,7 @@ DEADLINE = 300
 def cases(tier, seed):
     rng = random.Random(f"C05/{seed}")
     nmax, count = (7, 1800) if tier == "quick" else (9, 9000)
-    cl = [("overlap-maa", 3), ("gadget", 5), ("rand", 2), ("inputs", 1), ("dense-neg", 1)]
+    cl = [("overlap-maa", 3), ("gadget", 5), ("rand", 2), ("inputs", 1), ("dense-neg", 1), ("cond-maa", 1)]
     nets = gen.corpus() + [gen.draw(rng, cl, nmax) for _ in range(count)]
     nets += [gen.model_net(f) for f in gen.models_up_to(9 if tier == "quick" else 12)]
     out = []
